@@ -58,7 +58,7 @@ var targets = []string{
 var jobMethods = map[string]bool{"importPcapJob": true, "updateTagJob": true, "mergeIndexesJob": true, "convertStreamJob": true}
 
 type stats struct {
-	Creates, Spawned, JobBegin, JobPost, Clock, Ticker, MapRange, MapRangeSkipped, IOPoints, NumCPU, KnobSnap, KnobCleanup, WorkerIdle int
+	Creates, Spawned, JobBegin, JobPost, JobYield, Clock, Ticker, MapRange, MapRangeSkipped, IOPoints, NumCPU, KnobSnap, KnobCleanup, WorkerIdle int
 }
 
 func fail(format string, a ...any) {
@@ -501,6 +501,33 @@ func (rw *rewriter) instrumentJob(fd *ast.FuncDecl) {
 		return outl
 	}
 	fd.Body.List = walk(fd.Body.List)
+	if name == "convertStreamJob" {
+		// a gate between two rounds of conversions, at instants at which no
+		// conversion is in flight (otherwise what the parked job has done would
+		// depend on real time)
+		for _, st := range fd.Body.List {
+			fs, ok := st.(*ast.ForStmt)
+			if !ok || fs.Cond == nil {
+				continue
+			}
+			ids := map[string]bool{}
+			ast.Inspect(fs.Cond, func(n ast.Node) bool {
+				if id, ok := n.(*ast.Ident); ok {
+					ids[id.Name] = true
+				}
+				return true
+			})
+			if !ids["freeJobsGlobal"] || !ids["maxJobsGlobal"] {
+				continue
+			}
+			y := &ast.IfStmt{
+				Cond: &ast.BinaryExpr{X: ast.NewIdent("freeJobsGlobal"), Op: token.EQL, Y: ast.NewIdent("maxJobsGlobal")},
+				Body: &ast.BlockStmt{List: []ast.Stmt{&ast.ExprStmt{X: rw.rt("JobYield", ast.NewIdent("__job"))}}},
+			}
+			fs.Body.List = append([]ast.Stmt{y}, fs.Body.List...)
+			rw.st.JobYield++
+		}
+	}
 	if posts == 0 {
 		fail("job method %s: no completion post (mgr.jobs <- ...) found outside closures", name)
 	}
